@@ -75,6 +75,34 @@ pub fn cells(tier: Tier) -> Vec<CellPlan> {
         c.rounds = if q { 3 } else { 4 };
         v.push(plan(c, if q { 1 } else { 2 }, 1.0));
     }
+    // Frames of 20 ms: event buffers rotate every frame, so a `DisconnectRequest` written on a
+    // frame without a tick is gone two frames later unless the backend's set ran in between.
+    {
+        let mut c = cell("mismatch-dt20", Auth::ProtocolCheck, true);
+        c.cfg.dt_ms = 20;
+        c.alphabet = vec![EvOp::Nop, EvOp::Connect(1), EvOp::World(Op::Mut(0, TA)), EvOp::EmitS(SK::EI, Mode::Broadcast, None)];
+        c.rounds = if q { 4 } else { 5 };
+        v.push(plan(c, if q { 1 } else { 2 }, 1.0));
+    }
+    // A synchronized relationship whose graph has been through ticks before a client is
+    // authorized: the late client must be served like the others.
+    for (name, auth) in [("related-protocol", Auth::ProtocolCheck), ("related-none", Auth::None)] {
+        let mut c = cell(name, auth, false);
+        c.cfg.with_child = true;
+        c.cfg.sync_rel = true;
+        c.init = vec![Op::Spawn(0, 1 << TA), Op::Spawn(1, 1 << TA), Op::SetParent(1, 0)];
+        c.alphabet = vec![
+            EvOp::Nop,
+            EvOp::Connect(1),
+            EvOp::World(Op::Mut(0, TA)),
+            EvOp::World(Op::Mut(1, TA)),
+            EvOp::World(Op::ClearParent(1)),
+            EvOp::EmitS(SK::E1, Mode::Broadcast, None),
+            EvOp::Disconnect(1),
+        ];
+        c.rounds = if q { 3 } else { 4 };
+        v.push(plan(c, if q { 1 } else { 2 }, 1.0));
+    }
     // Entities holding periodically replicated and send-once components: a client that
     // authorizes late must still receive them in full.
     for (name, auth) in [("rates-protocol", Auth::ProtocolCheck), ("rates-custom", Auth::Custom)] {
